@@ -224,12 +224,17 @@ func cmdEnum(args []string) {
 					argv = append([]gh.Tok{d.Cfg.Prog}, argv...)
 				}
 				for pi, pre := range d.Pres {
-					c := gh.Case{Ev: "case", Def: d.ID, ID: *idBase + 45000000 + 8*id + pi, Argv: argv, Disp: d.Disp, HasPre: true, Pre: pre}
-					c.Res = gh.RunCase(d, &c)
-					line, _ := json.Marshal(&c)
-					block = append(block, line)
-					cases++
-					stats["history-case"]++
+					for early := 0; early < 2; early++ {
+						if early == 1 && d.Cfg.HelpOpt() == 0 {
+							continue
+						}
+						c := gh.Case{Ev: "case", Def: d.ID, ID: *idBase + 45000000 + 16*id + 2*pi + early, Argv: argv, Disp: d.Disp, HasPre: true, Pre: pre, PreEarly: early == 1}
+						c.Res = gh.RunCase(d, &c)
+						line, _ := json.Marshal(&c)
+						block = append(block, line)
+						cases++
+						stats["history-case"]++
+					}
 				}
 				for ti, target := range targets {
 					c := gh.Case{Ev: "case", Def: d.ID, ID: *idBase + 2*id + ti, Argv: argv, Disp: d.Disp, Comp: target, NDOnly: d.NDOnly}
